@@ -343,6 +343,108 @@ def evaluate(case, workdir):
     return fails
 
 
+
+# ------------------------------------------------------------------------------------------
+# the rendered tearsheet (plot_results): the numbers printed on the sheet, for the strategy AND for a benchmark
+# whose dates need not be the strategy's
+# ------------------------------------------------------------------------------------------
+LABELS = {'Total Return': ('tot', '{:.0%}'), 'CAGR': ('cagr', '{:.2%}'), 'Sharpe Ratio': ('sharpe', '{:.2f}'),
+          'Sortino Ratio': ('sortino', '{:.2f}'), 'Max Daily Drawdown': ('max_dd', '{:.2%}'),
+          'Max Drawdown Duration (Days)': ('dur', '{:.0f}')}
+
+
+def json_numbers(dates, floats, workdir):
+    from qstrader.statistics.json_statistics import JSONStatistics
+    df = pd.DataFrame({'Equity': list(floats)}, index=list(dates))
+    alloc = pd.DataFrame({'EQ:AAA': [1.0] * len(dates)}, index=list(dates))
+    with warnings.catch_warnings():
+        warnings.simplefilter('ignore')
+        s = JSONStatistics(df, alloc, periods=PERIODS, output_filename=os.path.join(workdir, 's.json')).statistics['strategy']
+    return {'tot': series_vals(s['cum_returns'])[-1] - 1.0, 'cagr': s['cagr'], 'sharpe': s['sharpe'], 'sortino': s['sortino'],
+            'max_dd': s['max_drawdown'], 'dur': s['max_drawdown_duration']}
+
+
+def printed_ok(fmt, value, text):
+    """text is fmt applied to value, allowing float noise to decide a rounding tie either way"""
+    try:
+        v = float(value)
+    except Exception:
+        return False
+    cands = set()
+    for f in (1.0, 1 - 1e-9, 1 + 1e-9):
+        for add in (0.0, 1e-12, -1e-12):
+            try:
+                cands.add(fmt.format(v * f + add))
+            except Exception:  # noqa
+                pass
+    return text in cands or text.replace('-0', '0') in {c.replace('-0', '0') for c in cands}
+
+
+def rendered_point(case):
+    """case: start, steps (strategy), bench_steps, bench_offset (business days: <0 = benchmark starts earlier)"""
+    import matplotlib.pyplot as plt
+    from qstrader.statistics.tearsheet import TearsheetStatistics
+    d = scratch_dir('qsc17r-')
+    fails = []
+    try:
+        start = datetime.date.fromisoformat(case['start'])
+        svals = [float(v) for v in equity_values(case['steps'])]
+        bvals = [float(v) for v in equity_values(case['bench_steps'])]
+        off = case['bench_offset']
+        cal = bdates(start - datetime.timedelta(days=60), 200)
+        i0 = next(i for i, x in enumerate(cal) if x >= start)
+        sdates = cal[i0:i0 + len(svals)]
+        bdates_ = cal[i0 + off:i0 + off + len(bvals)]
+        sdf = pd.DataFrame({'Equity': svals}, index=list(sdates))
+        bdf = pd.DataFrame({'Equity': bvals}, index=list(bdates_))
+        want = {'strategy': json_numbers(sdates, svals, d), 'benchmark': json_numbers(bdates_, bvals, d)}
+        plt.close('all')
+        with warnings.catch_warnings():
+            warnings.simplefilter('ignore')
+            ts = TearsheetStatistics(strategy_equity=sdf.copy(), benchmark_equity=bdf.copy(), periods=PERIODS)
+            try:
+                ts.plot_results()
+            except Exception as e:  # noqa
+                return {'viols': [{'clause': 'C17.unexpected_error', 'detail': {'error': repr(e), 'on': 'plot_results'}, 'case': case}],
+                        'execs': 1, 'evals': 1, 'nontrivial': True, 'outcome': ('rendered', off)}
+        fig = plt.gcf()
+        rows = {}
+        for ax in fig.axes:
+            for t in ax.texts:
+                x, y = t.get_position()
+                rows.setdefault((id(ax), round(y, 3)), []).append((x, t.get_text()))
+        parsed = 0
+        for cells in rows.values():
+            cells.sort()
+            label = cells[0][1]
+            if label not in LABELS or len(cells) < 3:
+                continue
+            parsed += 1
+            key, fmt = LABELS[label]
+            for who, (_, text) in zip(('strategy', 'benchmark'), cells[1:3]):
+                if not printed_ok(fmt, want[who][key], text):
+                    fails.append({'clause': 'C17.tearsheet_vs_json', 'case': case,
+                                  'detail': {'printed_on_sheet': text, 'statistic': label, 'column': who,
+                                             'json_export': float(want[who][key]), 'benchmark_offset_days': off}})
+        plt.close('all')
+        return {'viols': fails[:4], 'execs': 1, 'evals': 1, 'nontrivial': parsed == len(LABELS),
+                'outcome': ('rendered', off, parsed), 'counters': {'rendered_sheets': 1, 'rendered_rows_parsed': parsed}}
+    finally:
+        shutil.rmtree(d, ignore_errors=True)
+
+
+def rendered_items(tier):
+    pats = [['1.25', '0.8', '0.8', '1.25', '2', '0.8'], ['0.8', '0.8', '1.25', '1', '0.8', '2', '1.25']]
+    offs = [0, -3, 2] if tier == 'quick' else [0, -1, -3, -7, 2, 5]
+    out = []
+    for k, sp in enumerate(pats if tier != 'quick' else pats[:1]):
+        for off in offs:
+            for bl in ((8, 12) if tier != 'quick' else (10,)):
+                bp = [pats[1 - k][i % len(pats[1 - k])] for i in range(bl)]
+                out.append({'kind': 'rendered', 'start': '2020-03-02', 'steps': sp, 'bench_steps': bp, 'bench_offset': off})
+    return out
+
+
 def point(case):
     d = scratch_dir('qsc17-')
     try:
@@ -420,7 +522,16 @@ def run(tier, res, is_known):
     res.bounds['long_curves'] = len(lits)
     product(point, lits, res, is_known, label='year-long periodic curves', sample_every=10 ** 9, chunk=1)
     res.rule += ('; plus %d year-long (250-523 observations) periodic curves from month starts of 2018-2019' % len(lits))
+    if any(not is_known(v) for v in res.violations):
+        return
+    rits = rendered_items(tier)
+    product(rendered_point, rits, res, is_known, label='rendered tearsheets (strategy + benchmark on other dates)', chunk=1,
+            sample_every=10 ** 9)
+    res.rule += ('; plus %d rendered tearsheets (plot_results under the Agg backend): every number printed for the strategy and '
+                 'for a benchmark that starts earlier / later / together with it equals the JSON export of that curve' % len(rits))
 
 
 def replay(case):
+    if case.get('kind') == 'rendered':
+        return rendered_point(case)['viols']
     return point(case)['viols']
